@@ -359,7 +359,11 @@ impl SymbolTable {
         loop {
             match &self.scopes[scope_idx].kind {
                 ScopeKind::Function | ScopeKind::Method { .. } => {
-                    return self.scopes[scope_idx].return_type.as_ref();
+                    // A closure body is a function scope without a declared return type: what `?` (or `return`)
+                    // needs there is the return type of the declaration the closure is written in.
+                    if let Some(ret) = self.scopes[scope_idx].return_type.as_ref() {
+                        return Some(ret);
+                    }
                 }
                 _ => {}
             }
